@@ -47,19 +47,25 @@ impl<SlotType: Copy+Debug, const BUFFER_SIZE: usize, const METRICS: bool, const 
     #[inline(always)]
     fn push(&self, element: SlotType) -> bool {
         let mutable_self = unsafe { &mut *(*(self as *const Self as *const std::cell::UnsafeCell<Self>)).get() };
+        #[cfg(feature = "verif")] crate::verif::lock_enter(&self.concurrency_guard, "plstack.lock");
         self.concurrency_guard.lock();
+        #[cfg(feature = "verif")] crate::verif::yield_point_r("plstack.head.read");
         if self.head >= BUFFER_SIZE as u32 {
             if METRICS {
                 mutable_self.push_full_count += 1;
             }
+            #[cfg(feature = "verif")] crate::verif::lock_exit(&self.concurrency_guard, "plstack.unlock");
             unsafe {self.concurrency_guard.unlock()};
             return false;
         }
+        #[cfg(feature = "verif")] crate::verif::yield_point_w("plstack.push.write");
         mutable_self.buffer[self.head as usize] = element;
+        #[cfg(feature = "verif")] crate::verif::yield_point_w("plstack.head.inc");
         mutable_self.head += 1;
         if METRICS {
             mutable_self.push_count += 1;
         }
+        #[cfg(feature = "verif")] crate::verif::lock_exit(&self.concurrency_guard, "plstack.unlock");
         unsafe {self.concurrency_guard.unlock()};
         if DEBUG {
             eprintln!("### PUSH: [#{}] = {:?} -- '{}'", self.head-1, element, self.stack_name);
@@ -70,19 +76,25 @@ impl<SlotType: Copy+Debug, const BUFFER_SIZE: usize, const METRICS: bool, const 
     #[inline(always)]
     fn pop(&self) -> Option<SlotType> {
         let mutable_self = unsafe { &mut *(*(self as *const Self as *const std::cell::UnsafeCell<Self>)).get() };
+        #[cfg(feature = "verif")] crate::verif::lock_enter(&self.concurrency_guard, "plstack.lock");
         self.concurrency_guard.lock();
+        #[cfg(feature = "verif")] crate::verif::yield_point_r("plstack.head.read");
         if self.head == 0 {
             if METRICS {
                 mutable_self.pop_empty_count += 1;
             }
+            #[cfg(feature = "verif")] crate::verif::lock_exit(&self.concurrency_guard, "plstack.unlock");
             unsafe {self.concurrency_guard.unlock()};
             return None;
         }
+        #[cfg(feature = "verif")] crate::verif::yield_point_r("plstack.pop.read");
         let element = self.buffer[self.head as usize - 1];
+        #[cfg(feature = "verif")] crate::verif::yield_point_w("plstack.head.dec");
         mutable_self.head -= 1;
         if METRICS {
             mutable_self.pop_count += 1;
         }
+        #[cfg(feature = "verif")] crate::verif::lock_exit(&self.concurrency_guard, "plstack.unlock");
         unsafe {self.concurrency_guard.unlock()};
         if DEBUG {
             eprintln!("### POP: [#{}] == {:?} -- '{}'", self.head, element, self.stack_name);
